@@ -6,6 +6,7 @@ CONSTANTS
   WitnessPersonas = {"honest", "lunatic", "silent", "weak3"}
   Modes = {"skip", "seq"}
   Roots = {1, 3}
+  WithUpdate = TRUE
   Nows = {125}
   Weak_SkipTrustLevel = FALSE
   Weak_AdjacentIgnoresNextVals = FALSE
@@ -15,6 +16,7 @@ CONSTANTS
   Weak_MismatchAlsoCountsAsMatch = FALSE
   Weak_NoWitnessNeeded = FALSE
   Weak_BackwardsUnbound = FALSE
+  Weak_ReplacementHashUnchecked = FALSE
 INIT Init
 NEXT Next
 INVARIANTS TrustRootOnly StoreSound WitnessConfirmed NoConfirmationFromSilence AttackReported AttackStoresNothing StoreMonotone
